@@ -691,3 +691,6 @@ M2("m136", "C19", "R19.5", [
     (SPACES, "from jaxtyping import Array\n", "from jaxtyping import Array\n\n_SEEN: list = []\n", None),
     (SPACES, "    return space, index_fn", "    _SEEN.append(index_fn)\n    return space, _SEEN[0]", None)],
    "index function taken from a module-level list shared between calls (positive example of the zero-count rule; seeded C19e)")
+M("m137", "C10", "R10.8", RVI, "        self.gain = 0.0\n", "        self.gain = None\n", "gain has no template leaf on a fresh solver: the stored gain is skipped on restore")
+M("m138", "C09", "R9.6", PVI, "        self.value_history = np.zeros((self.period + 1, self.problem.n_states))\n        self.history_index: int = 0\n        self.value_history[0] = np.array(self.values)",
+  "        self.value_history = None\n        self.history_index: int = 0", "history allocated lazily: the fresh solver's template has no leaf for it (seeded C09e)")
